@@ -218,8 +218,9 @@ PROPS = {
             "of globals, VarNotFound included; C01_compile_correct_f2: the same plus IfTrue / IfFalse / IfElse with "
             "one statement per branch, nested; C01_compile_correct_f3: the same plus While loops at the top level of "
             "main with such a statement as body, in the form 'there is a budget from which on'; C01_compile_correct_f4: "
-            "the while-language - assignment, If*, While, Composite nested at will; hypotheses: no "
-            "FNV-handle collision among the global names, expression depth + 1 < 256, fewer than 2^32 variable "
+            "the while-language - assignment, If*, While, Composite nested at will; hypotheses: compile returns Ok "
+            "(which since ce07816 implies that no two global names share their FNV handle; globals are observed "
+            "under the names that do not collide with a name of the program), expression depth + 1 < 256, fewer than 2^32 variable "
             "ids, bytecode shorter than 2^31 bytes, for f1 / f2 budget >= instructions of main + 2); for everything "
             "else (reals, locals, Repeat / ForEach, calls, tables, closures, natives) its statement "
             "at the top of Properties/C01.v is carried by the differential check only",
